@@ -615,6 +615,7 @@ pub fn run_seed(seed: u64, profile: Profile, opts: &RunOptions) -> RunResult {
         late_workers: plan.late_workers.clone(),
         prunes_left: plan.prunes,
         queue_events_left: 4,
+        autoalloc_ticks_left: 10,
     };
     for s in &plan.initial_workers {
         d.step(&Action::AddWorker { spec: *s });
@@ -657,6 +658,7 @@ pub fn run_seed(seed: u64, profile: Profile, opts: &RunOptions) -> RunResult {
                     budgets.late_workers.remove(0);
                 }
                 Action::QueueEvent { .. } => budgets.queue_events_left -= 1,
+                Action::AutoallocTick => budgets.autoalloc_ticks_left -= 1,
                 _ => {}
             }
         }
